@@ -243,27 +243,31 @@ where
         }
     }
 
+    /// Remove the in-flight round of the key (restricted to the round with the given id, if any).
+    ///
+    /// The key owned by the removed round is returned together with its notifiers: this function is called with the
+    /// in-flight lock (and possibly a shard lock) held, and a user key must not be dropped inside a lock section.
     #[expect(clippy::type_complexity)]
     pub fn take<Q>(
         &mut self,
         hash: u64,
         key: &Q,
         id: Option<usize>,
-    ) -> Option<Vec<Notifier<Option<RawCacheEntry<E, S, I>>>>>
+    ) -> Option<(E::Key, Vec<Notifier<Option<RawCacheEntry<E, S, I>>>>)>
     where
         Q: Hash + Equivalent<E::Key> + ?Sized,
     {
         match self.inflights.entry(hash, |e| key.equivalent(&e.key), |e| e.hash) {
             Entry::Occupied(o) => match id {
-                Some(id) if id == o.get().inflight.id => Some(o.remove().0.inflight),
+                Some(id) if id == o.get().inflight.id => Some(o.remove().0),
                 Some(_) => None,
-                None => Some(o.remove().0.inflight),
+                None => Some(o.remove().0),
             },
             Entry::Vacant(..) => None,
         }
-        .map(|inflight| {
-            inflight.close.store(true, Ordering::Relaxed);
-            inflight.notifiers
+        .map(|entry| {
+            entry.inflight.close.store(true, Ordering::Relaxed);
+            (entry.key, entry.inflight.notifiers)
         })
     }
 
@@ -282,10 +286,9 @@ where
                 match f.map(unerase_required_fetch_builder) {
                     Some(f) => Some(FetchOrTake::Fetch(f)),
                     None => {
-                        let inflight = o.remove().0.inflight;
-                        inflight.close.store(true, Ordering::Relaxed);
-                        let notifiers = inflight.notifiers;
-                        Some(FetchOrTake::Notifiers(notifiers))
+                        let entry = o.remove().0;
+                        entry.inflight.close.store(true, Ordering::Relaxed);
+                        Some(FetchOrTake::Notifiers(entry.key, entry.inflight.notifiers))
                     }
                 }
             }
@@ -317,5 +320,6 @@ where
     I: Indexer<Eviction = E>,
 {
     Fetch(RequiredFetchBuilder<E::Key, E::Value, E::Properties, C>),
-    Notifiers(Vec<Notifier<Option<RawCacheEntry<E, S, I>>>>),
+    /// The removed round's key (to be dropped outside the lock section) and its notifiers.
+    Notifiers(E::Key, Vec<Notifier<Option<RawCacheEntry<E, S, I>>>>),
 }
